@@ -234,7 +234,14 @@ impl Property for C09 {
             2 => textbook(operand, TexCfg::default()).prop_map(|n| MNode::math(vec![n])),
         ];
         let tree = (base, 0..3u8, proptest::collection::vec(any::<u16>(), 4), 0..4u8, proptest::bool::weighted(0.08)).prop_map(|(t, mode, picks, style, dup)| plant_ids(t, mode, picks, style, dup));
-        let nav = proptest::collection::vec(sel(&NAV_COMMANDS[..17]).prop_map(|s| s.to_string()), 0..6);
+        // navigation steps: any command (moves, zooms, reads, place markers and jumps to them), or "@node:<k>:<offset>" =
+        // set_navigation_node(id of the k-th element of the returned MathML, offset), what an AT does after cursor routing
+        let step = prop_oneof![
+            6 => sel(&NAV_COMMANDS[..17]).prop_map(|s| s.to_string()),
+            3 => sel(NAV_COMMANDS).prop_map(|s| s.to_string()),
+            2 => (0usize..40, sel(&[0usize, 0, 1, 2, 5, 1000])).prop_map(|(k, off)| format!("@node:{}:{}", k, off)),
+        ];
+        let nav = proptest::collection::vec(step, 0..8);
         (tree, nav, proptest::collection::vec(0usize..60, 0..4), sel(&["None", "SSML", "SAPI5"])).prop_map(|(tree, nav, positions, tts)| Case { tree, nav, positions, tts: tts.to_string() }).boxed()
     }
     fn eval(&self, case: &Case) -> Outcome {
@@ -268,7 +275,8 @@ impl Property for C09 {
             }
         }
         // (5) ids handed out later
-        let ids: HashSet<String> = parsed.all_ids().into_iter().collect();
+        let id_list: Vec<String> = parsed.all_ids();
+        let ids: HashSet<String> = id_list.iter().cloned().collect();
         let mut dynamic = 0;
         // the id is everything up to the closing "'/>" (ids may contain quotes); XML escapes in it are undone
         let mark = regex::Regex::new(r#"<(?:mark name|bookmark mark)='(.*?)'/>"#).unwrap();
@@ -288,7 +296,13 @@ impl Property for C09 {
                 }
             }
             for c in &case.nav {
-                if let Ok(s) = api::nav_cmd(c) {
+                if let Some(rest) = c.strip_prefix("@node:") {
+                    let mut it = rest.split(':').filter_map(|x| x.parse::<usize>().ok());
+                    let (k, off) = (it.next().unwrap_or(0), it.next().unwrap_or(0));
+                    if !id_list.is_empty() {
+                        let _ = api::set_nav_node(&id_list[k % id_list.len()], off);
+                    }
+                } else if let Ok(s) = api::nav_cmd(c) {
                     for m in mark.captures_iter(&s) {
                         if !ids.contains(&m[1]) {
                             check_id("navigation-speech-bookmark", &unescape(&m[1]), &mut viols);
@@ -338,6 +352,6 @@ impl Property for C09 {
         (12000, 300000)
     }
     fn rule(&self) -> String {
-        "cases = G-struct / textbook expressions with author ids on no / some / all elements (plain, with spaces, looking like generated ids, with XML special characters; 8% with one duplicated author id) followed by speech with Bookmark=true under TTS None/SSML/SAPI5, up to 5 navigation moves and braille cursor routing; oracle on the returned MathML = every element has an id, ids are distinct, an author id on a token sits on an element whose visible text contains the token's text, an author id on a 2-D element stays on an element of that kind, and a token whose text is unique before and after keeps its author id; every id handed out later (bookmark marks, get_navigation_mathml_id, get_navigation_node_from_braille_position) is an id of the returned MathML; non-trivial = >= 2 author ids with restructuring, or >= 3 ids handed out".into()
+        "cases = G-struct / textbook expressions with author ids on no / some / all elements (plain, with spaces, looking like generated ids, with XML special characters; 8% with one duplicated author id) followed by speech with Bookmark=true under TTS None/SSML/SAPI5, up to 7 navigation steps (any command incl. place markers and jumps to them, or set_navigation_node on an element of the returned MathML with a character offset) and braille cursor routing; oracle on the returned MathML = every element has an id, ids are distinct, an author id on a token sits on an element whose visible text contains the token's text, an author id on a 2-D element stays on an element of that kind, and a token whose text is unique before and after keeps its author id; every id handed out later (bookmark marks, get_navigation_mathml_id, get_navigation_node_from_braille_position) is an id of the returned MathML; non-trivial = >= 2 author ids with restructuring, or >= 3 ids handed out".into()
     }
 }
